@@ -95,7 +95,11 @@ func (ev *Eval) noteRange(t types.Type, term string) {
 		return
 	}
 	if _, _, ok := intInfo(t); !ok {
-		return
+		switch types.Unalias(t).Underlying().(type) {
+		case *types.Slice, *types.Map:
+		default:
+			return
+		}
 	}
 	if f := ev.s.rangeFact(t, term); f != "" {
 		*ev.pending = append(*ev.pending, f)
@@ -468,8 +472,10 @@ func (ev *Eval) readAddr(a *Addr, t types.Type) Val {
 	case *types.Slice:
 		es := s.sortOf(u.Elem())
 		cur := s.load(ev.mem, a)
+		ev.noteRange(t, cur)
 		return Val{T: t, View: &View{Origin: a, Off: "0", Len: s.seqLen(es, cur), Elem: u.Elem()}, lval: a}
 	case *types.Map:
+		ev.noteRange(t, s.load(ev.mem, a))
 		return Val{T: t, Map: &MapV{Origin: a, T: u}, lval: a}
 	}
 	x := s.load(ev.mem, a)
@@ -877,6 +883,16 @@ func (ev *Eval) callExpr(x *ECall) Val {
 		ea := ev.indexVal(a, Val{Term: "q_eq"})
 		eb := ev.indexVal(b, Val{Term: "q_eq"})
 		return Val{Term: "(and (= " + la + " " + lb + ") (forall ((q_eq Int)) (=> (and (<= 0 q_eq) (< q_eq " + la + ")) (= " + ev.term(ea) + " " + ev.term(eb) + "))))", T: boolT}
+	case "alloc":
+		// alloc(p): p is an allocated (non-nil) object of its struct type in the current state
+		v := ev.eval(x.Args[0])
+		pt, ok := types.Unalias(v.T).Underlying().(*types.Pointer)
+		if !ok {
+			ev.fail("alloc() of non-pointer")
+		}
+		k := "next_" + sortID(s.sortOf(pt.Elem()))
+		t := ev.term(v)
+		return Val{Term: "(and (< 0 " + t + ") (< " + t + " " + s.ghostGet(ev.mem, k, "Int") + "))", T: boolT}
 	case "seq":
 		// seq(a): the sequence of the elements of Go array a
 		v := ev.eval(x.Args[0])
